@@ -293,6 +293,33 @@ ROUND3 = {
     "C20": "Members large enough to overflow a packed ranking key.",
 }
 
+# coverage added in the fourth round
+RA = ("Calling conventions (Cnn.RA, exact and syntactic): the public functions these rules ask directly keep positional order, "
+      "parameter names and default values of the reference signatures (sa/pinned_api.json, reviewed tree), and overriding "
+      "methods agree with the declaration they override.")
+ROUND4 = {
+    "C01": "Feature-level interval wrappers are asked with unstranded queries too; records held in native containers compare through the interpreted __eq__.",
+    "C02": "Parents without an id (typed / sequence-only) against parent-less operands (C02.R8); unstranded gaps (finding fixed).",
+    "C03": "Every integer index -L..L-1 of a located sequence.",
+    "C04": "Levels whose placement carries its own parent handle (io.parser shape) with the lifted location's sequence; the round trip chromosome -> chunk -> chromosome through an interval object, incl. chunks that miss it.",
+    "C05": "-",
+    "C06": "-",
+    "C07": "Chromosome-level answers re-asked after the chunk-relative ones exist on the same object; is_coding / cds_size / cds_start / cds_end / cds_blocks of coding transcripts on chunks holding only UTR, intron or nothing.",
+    "C08": "CDS built from phases (documented alternative input) has the guid of the same CDS built from frames, also after a dictionary round trip.",
+    "C09": "Soft-masked (lower-case) genome: result sequences are the source's characters, case included.",
+    "C10": "C10.RC with members of different type sets (the first not a superset).",
+    "C11": "Isoforms sharing a coding block (one known finding: duplicate CDS IDs).",
+    "C12": "collection_to_genbank itself with several collections per call (SeqRecord / SeqIO.write modelled): one record per collection with its own sequence and features; /translation re-calculated when the source carries a stale one.",
+    "C13": "Variants touching the first / last base of the chromosome or chunk.",
+    "C14": "CDS shorter than one codon (1-2 bases, also split over a junction).",
+    "C15": "-",
+    "C16": "-",
+    "C17": "A single-exon transcript whose CDS is written as adjacent blocks.",
+    "C18": "The merged dictionary is a plain dict of sorted lists (a lookup of an absent key raises and inserts nothing).",
+    "C19": "-",
+    "C20": "Read-through primary CDS (in-frame stop): primary protein = member's translation; children order and primary after an export and a dictionary round trip.",
+}
+
 NOT_YET = "rules for this property are not implemented in this commit (see DESIGN.md section 6b for the order)"
 
 
@@ -310,7 +337,8 @@ def main():
                 evidence_file=f"/verif/evidence/{pid}.json",
                 replay_cmd_template="./check --replay {path}",
                 engine="sa",
-                level_claimed=dict(category="other", text=c["text"] + (" Added later: " + ROUND3[pid] if pid in ROUND3 else ""),
+                level_claimed=dict(category="other", text=c["text"] + (" Added later: " + ROUND3[pid] if pid in ROUND3 else "")
+                                   + (" Round 4: " + ROUND4[pid] if ROUND4.get(pid, "-") != "-" else "") + ("" if pid == "C10" else " " + RA),
                                    design_ref=c["design"]),
                 level_note=c["note"],
                 technique=c["technique"],
